@@ -113,8 +113,12 @@ type Bus struct {
 	event.Bus
 	FailSubscribe bool
 	FailOn        func() bool // consulted on every Subscribe: true = this one fails
-	mu            sync.Mutex
-	Subs          int
+	// Gate, when set, parks every Close of a subscription: the goroutine that owns the
+	// subscription (the DHT's network subscriber, fullrt's runSubscriber) closes it on its
+	// way out, so its exit becomes an event the driver orders against Close's return.
+	Gate *Gate
+	mu   sync.Mutex
+	Subs int
 }
 
 type busSub struct {
@@ -124,6 +128,9 @@ type busSub struct {
 }
 
 func (s *busSub) Close() error {
+	if s.b.Gate != nil {
+		s.b.Gate.Park(nil, "bus:unsub", "")
+	}
 	s.once.Do(func() { s.b.mu.Lock(); s.b.Subs--; s.b.mu.Unlock() })
 	return s.Subscription.Close()
 }
@@ -167,7 +174,7 @@ func NewHost(seed uint64, g *Gate) *Host {
 	}
 	id := PeerID(seed)
 	a, _ := ma.NewMultiaddr("/ip4/8.8.8.8/tcp/4001")
-	return &Host{Id: id, PS: ps, EvBus: &Bus{Bus: eventbus.NewBus()}, Gate: g,
+	return &Host{Id: id, PS: ps, EvBus: &Bus{Bus: eventbus.NewBus(), Gate: g}, Gate: g,
 		Nw: &Net{Self: id, PS: ps, Connected: map[peer.ID]bool{}}, Address: []ma.Multiaddr{a}, Handlers: map[protocol.ID]bool{}}
 }
 
